@@ -131,7 +131,7 @@ def check_contacts_all(chk, s):
                 boxes = s["boxes"] if (periodic and s["boxes"] is not None) else None
                 exp = D.contact_distances(t.xyz, atoms, exp_pairs, scheme, boxes)
                 if _cmp(chk, "contact-distance-equals-min", wc, f"scheme={scheme}, periodic={periodic}", inp, d, exp, s["X"]):
-                    chk.ok(nontrivial=(s["variant"], scheme, periodic, ignore_np), sample={"scheme": scheme, "n_pairs": len(exp_pairs), "periodic": periodic})
+                    chk.ok(nontrivial=(s["seed"], s["variant"], scheme, periodic, ignore_np), sample={"scheme": scheme, "n_pairs": len(exp_pairs), "periodic": periodic})
 
 
 def check_contacts_pairs(chk, s):
@@ -197,7 +197,7 @@ def check_contacts_pairs(chk, s):
                         g, e = np.where(safe, ds, 0.0), np.where(safe, exps, 0.0)
                         ok &= _cmp(chk, "soft-min-equals-documented-formula", wc + ":soft_min", f"soft_min beta={beta}, scheme={scheme}", dict(inp, beta=beta), g, e, s["X"])
             if ok:
-                chk.ok(nontrivial=(s["variant"], scheme, periodic), sample={"scheme": scheme, "pairs": pairs[:4]})
+                chk.ok(nontrivial=(s["seed"], s["variant"], scheme, periodic), sample={"scheme": scheme, "pairs": pairs[:4]})
 
 
 # ------------------------------------------------------------------------------------------------ centres / shape
@@ -272,7 +272,7 @@ def check_shape(chk, s):
         ok &= _cmp(chk, "equals-formula", f"compute_nematic_order:{label}", "nematic order S2 = largest eigenvalue of Q", dict(base, groups=label), got_s2,
                    D.nematic_order(exp_dir), 1.0, extra_tol=1e-5 / max(gap.min(), 1e-6))
     if ok:
-        chk.ok(nontrivial=("shape", s["variant"]), sample={"variant": s["variant"], "compute_rg(masses) implements": which})
+        chk.ok(nontrivial=("shape", s["seed"], s["variant"]), sample={"variant": s["variant"], "compute_rg(masses) implements": which})
 
 
 # ------------------------------------------------------------------------------------------------ rdf / density
@@ -310,13 +310,13 @@ def check_rdf_density(chk, s):
                     chk.fail("shell-normalisation", wc, f"{kw}, periodic={periodic}: g(r={r[k]:.4f}) = {g[k]:.8g}, formula H/(n_pairs*V_shell*sum 1/V_cell) gives [{glo[k]:.8g}, {ghi[k]:.8g}]",
                              inp, observed=float(g[k]), expected=[float(glo[k]), float(ghi[k])])
                     continue
-                chk.ok(nontrivial=(s["variant"], str(kw), periodic, opt), sample={"kw": inp["kw"], "n_pairs": len(pairs), "nonzero_bins": int(np.sum(g > 0))})
+                chk.ok(nontrivial=(s["seed"], s["variant"], str(kw), periodic, opt), sample={"kw": inp["kw"], "n_pairs": len(pairs), "nonzero_bins": int(np.sum(g > 0))})
     for label, m in (("element-masses", None), ("custom-masses", np.linspace(1.0, 30.0, t.n_atoms))):
         got = md.density(t, masses=m)
         exp = D.density(masses if m is None else m, s["L"], s["A"])
         if _cmp(chk, "equals-formula", f"density:{label}", "mass density sum m / V * 1.66053906660 kg/m^3", {"what": "density", "variant": s["variant"], "seed": s["seed"], "masses": label},
                 got, exp, 0.0):
-            chk.ok(nontrivial=("density", s["variant"], label))
+            chk.ok(nontrivial=("density", s["seed"], s["variant"], label))
 
 
 # ------------------------------------------------------------------------------------------------ DRID
@@ -351,7 +351,7 @@ def check_drid(chk, s):
                          observed=float(a[k]), expected=float(b[k]))
                 break
         if ok:
-            chk.ok(nontrivial=(s["variant"], label), sample={"atoms": label, "n": exp.shape[1] // 3})
+            chk.ok(nontrivial=(s["seed"], s["variant"], label), sample={"atoms": label, "n": exp.shape[1] // 3})
 
 
 # ------------------------------------------------------------------------------------------------ dipole / J
@@ -370,7 +370,7 @@ def check_dipole_j(chk, s):
         lim = 1e-5 * np.abs(exp) + 8 * EPS * X * scale
         inp = dict(base, what="dipole")
         if np.all(np.abs(got - exp) <= lim):
-            chk.ok(nontrivial=("dipole", s["variant"]))
+            chk.ok(nontrivial=("dipole", s["seed"], s["variant"]))
         elif np.all(np.abs(got + exp) <= lim):
             chk.fail("dipole-equals-sum-q-r", "dipole_moments:sign-reversed",
                      f"dipole_moments returns MINUS sum_i q_i r_i for a neutral system: {got[0].tolist()} vs {exp[0].tolist()} (it accumulates displacements "
@@ -390,7 +390,7 @@ def check_dipole_j(chk, s):
                          observed=np.asarray(idx)[:4], expected=eidx[:4])
                 continue
             if _cmp(chk, "equals-karplus-formula", wc, f"{kind} {model}: A cos^2(phi+phi0) + B cos(phi+phi0) + C", inp, J, eJ, 0.0, extra_tol=slope * 1e-5):
-                chk.ok(nontrivial=(s["variant"], kind, model), sample={"kind": kind, "model": model, "n_phi": int(eidx.shape[0])})
+                chk.ok(nontrivial=(s["seed"], s["variant"], kind, model), sample={"kind": kind, "model": model, "n_phi": int(eidx.shape[0])})
     # default model is Bax2007
     if not np.array_equal(md.compute_J3_HN_HA(t)[1], md.compute_J3_HN_HA(t, model="Bax2007")[1]):
         chk.fail("default-model", "compute_J3_HN_HA", "default model is not Bax2007", dict(base, what="j3-default"))
